@@ -73,11 +73,20 @@ def make_schema(rng):
     from valida.datapath import MapValue, ListValue
 
     nodes = []
+    deep = rng.random() < 0.08           # now and then a narrow tree 6-9 levels deep (headings past h6, long paths)
+    maxdepth = rng.choice([6, 7, 9]) if deep else 3
 
     def grow(parts, kind, depth):
         child_keys = []
         children = []
-        if kind == "map" and depth < 3:
+        if deep and depth < maxdepth:
+            k = rng.choice(KEYS[:3] + ["lvl%d" % depth])
+            if kind == "map":
+                child_keys.append(k)
+                children.append((parts + [k], rng.choice(["map", "map", "list"]) if depth + 1 < maxdepth else "int"))
+            elif kind == "list":
+                children.append((parts + [ListValue()], "map" if depth + 1 < maxdepth else "str"))
+        elif kind == "map" and depth < 3:
             if rng.random() < 0.25:
                 children.append((parts + [MapValue()], rng.choice(["int", "str", "map", "list"])))
             else:
@@ -85,11 +94,11 @@ def make_schema(rng):
                 for k in ks:
                     child_keys.append(k)
                     children.append((parts + [k], rng.choice(["int", "str", "map", "list", "int"])))
-        if kind == "list" and depth < 3 and rng.random() < 0.7:
+        if not deep and kind == "list" and depth < 3 and rng.random() < 0.7:
             children.append((parts + [ListValue()], rng.choice(["int", "str", "map"])))
         nodes.append((parts, kind, child_keys))
         for p, k in children:
-            if len(nodes) < 8:
+            if len(nodes) < (12 if deep else 8):
                 grow(p, k, depth + 1)
 
     grow([], rng.choice(["map", "map", "list"]), 0)
@@ -211,12 +220,12 @@ def supplied_texts(nested):
     return out
 
 
-def html_event(i, nested, anchor):
+def html_event(i, nested, anchor, level=1, show_root=True):
     from valida.schema import write_tree_html
 
     e = {"id": i, "op": "html", "rules": [], "from": 0, "outcome": "", "nodes": [], "nested_same": True, "evs": [],
          "texts_ok": True, "escaped_ok": True, "token_ok": True, "exc": ""}
-    out, text = outcome_of(lambda: write_tree_html(nested, anchor_root=anchor))
+    out, text = outcome_of(lambda: write_tree_html(nested, anchor_root=anchor, heading_start_level=level, show_root_heading=show_root))
     e["outcome"] = out
     if text is None:
         e["exc"] = out
@@ -255,9 +264,11 @@ def run(rep, tier, seed):
                 rep.note_case(repr(schema.rules) + str(fi), nontrivial=len(e["nodes"]) > 1)
                 if nested is not None:
                     for anchor in ([None, "anchor"] if fi == 0 else [rng.choice([None, "anchor"])]):
-                        h = html_event(len(events) + 1, nested, anchor)
+                        level, show_root = rng.choice([1, 1, 1, 2, 3, 5]), rng.random() < 0.8
+                        h = html_event(len(events) + 1, nested, anchor, level, show_root)
                         events.append(h)
-                        recipes[h["id"]] = {"schema": repr(schema.rules)[:4000], "from": fi, "anchor": anchor}
+                        recipes[h["id"]] = {"schema": repr(schema.rules)[:4000], "from": fi, "anchor": anchor, "level": level,
+                                            "show_root": show_root}
                         rep.note_case(repr(schema.rules) + str(fi) + str(anchor) + "html", nontrivial=len(h["evs"]) > 4)
         except Unencodable:
             rep.skipped_unencodable += 1
